@@ -14,6 +14,9 @@ Decided (structural necessary conditions, for every history):
   drg        every buffer handed to the cipher is all-zero on entry (fresh or cleared on every
              path), all five generators draw from the same ChaCha instance
   clone      the cipher types derive Clone and hold no reference / pointer / heap indirection
+  drg-exact  every generator draws its keystream in ONE request over exactly the bytes it delivers (no draw in a loop,
+             no partially used block): later requests cannot depend on how earlier ones were sized
+  block-eq   set_counter, increment and the 64-bit carry of the engine actually built, as value graphs (shared with C03)
 Not decided: the keystream values themselves (C03), offset-interval induction (tier 2)."""
 import re
 
@@ -21,7 +24,7 @@ from .. import mir, pred, rules
 from ..mir import fmt, walk, const_val
 
 EXPLANATION = __doc__
-TECHNIQUE = "MIR dataflow rules: linear-form lock-step of loop indices, must-set typestate, call-order dominance, sibling canonical-body comparison, definite-zeroing of DRG buffers"
+TECHNIQUE = "value-graph equality (abstract interpretation of MIR in a hash-consed bit-level term domain with linear-combination, parity and truth-table normal forms) against specification graphs; MIR dataflow rules: linear-form lock-step of loop indices, must-set typestate, call-order dominance, sibling canonical-body comparison, definite-zeroing of DRG buffers"
 
 CIPHERS = [
     ("chacha20::ChaCha", "increment$", True),
